@@ -162,3 +162,9 @@ V('C15', 'nc-rebalance-range-loop-fresh-room', F, P + 'Pool._maybe_rebalance',
                 for _ in range(min(quota - nconns, room)):
                     self._schedule_new_conn(block)
 ''', None)
+
+# round 5: the stored seeded breaks this property's check reports, replayed as variants
+from sa.selftest import VP  # noqa
+VP('C15', 'C15-e1', 'C15.R2', 'call=_schedule_new_conn@0')
+VP('C15', 'C15-e2', 'C15.R2', 'call=_schedule_new_conn@0')
+VP('C15', 'C15-e3', 'C15.R1', 'ledger')
